@@ -16,7 +16,7 @@ CHECKS = {
    technique="runtime monitoring: byte-for-byte snapshots of every readable executable mapping (from /proc/self/maps) before/after every install and after scope exit, differ classifies each changed byte; untouched neighbours at 16-byte pitch are called",
    text="Every byte of executable memory of the process was compared across each API call of the sampled histories: every differing byte lay in the 16-byte entry slot of the named target or in a mapping that install created; after scope exit the diff against the initial snapshot was empty and the page set identical.",
    note="only executable mappings are compared; single-threaded at snapshot time"),
- "C11": dict(engine="native", level="fault_enumeration", ref="DESIGN.md §5 C11",
+ "C11": dict(engine="native+sim", level="fault_enumeration", ref="DESIGN.md §5 C11",
    technique="runtime monitoring with address-space shaping and fault injection: the +/-128 MiB neighbourhood of a synthetic target is reserved except chosen holes, hinted mmaps are failed by plan through interposers; online ledger of library mappings; independent decoder; call oracle",
    text="For each enumerated (target position, neighbourhood layout, mmap/mprotect fault plan) the real install either kept exactly one mapping within 128 MiB that the entry decodes to and the call reached the fake, or panicked with target bytes, behaviour and mapping set unchanged; every rejected placement was given back (ledger). The layout classes (empty/full/one hole at either extreme/just outside/random) are enumerated; offsets inside are sampled.",
    note="kernel honours free hints above the probed hint floor; clean refusals with a free page are allowed by the property"),
@@ -108,7 +108,7 @@ def main():
         },
         "engines": [
             {"name": "native", "path": "harness/native", "serves_properties": sorted(k for k, v in CHECKS.items() if "native" in v["engine"]), "kind_free_text": "Rust executable linking /repo's injectorpp; interposes mmap/munmap/mprotect/__clear_cache, shapes the address space, snapshots executable memory, interprets x86 jump idioms, assembly register probes, poll-counting executor; run in crash-isolated children by ./check"},
-            {"name": "sim", "path": "harness/sim", "serves_properties": ["C01", "C02", "C15", "C16"], "kind_free_text": "generated at check time: the unmodified emitter sources of /repo compiled on the host against a shim of injector_core::common over a simulated memory; A64, A32/T32 and x86 interpreters; llvm-mc cross-check"},
+            {"name": "sim", "path": "harness/sim", "serves_properties": ["C01", "C02", "C11", "C15", "C16"], "kind_free_text": "generated at check time: the unmodified emitter sources of /repo compiled on the host against a shim of injector_core::common over a simulated memory; A64, A32/T32 and x86 interpreters; llvm-mc cross-check"},
             {"name": "arms", "path": "lib/armsgen.py", "serves_properties": ["C08"], "kind_free_text": "parses macro_rules! fake at check time, generates and compiles one program per arm, drives them and compares traces with a reference model"},
         ],
         "checks": checks,
